@@ -182,7 +182,11 @@ def oracle_roundtrip(run, reader, ranges="all", edge_limit=None):
     lo, hi = min(ex), max(ex)
     # full range first
     pairs = [(max(lo - 2, 0), hi + 2)]
-    if ranges != "full":
+    if ranges == "runs":
+        # recordings with decades between blocks: the candidate-file enumeration of one read over everything
+        # would not finish; read around every block instead
+        pairs = [(max(st - 2, 0), st + len(rows) + 1) for st, rows in model.runs(cfg=cfg)]
+    elif ranges != "full":
         edges = edge_set(model, cfg, limit=edge_limit)
         if ranges == "all":
             pairs += [(s, e) for s in edges for e in edges if s <= e]
@@ -418,13 +422,16 @@ def oracle_selfdesc(run, regen=True):
             out.append(({"class": "init_utc_varies"}, "session %s: %s" % (uuid, sorted(inits))))
     if not regen or not files:
         return out
-    # --- regeneration from every single file
+    # --- regeneration from every single file (with an unfinished tmp. file of a killed recorder next to it)
     for rel in files:
         scratch = core.new_scratch("regen")
         try:
             ch2 = os.path.join(scratch, cfg["ch"])
             os.makedirs(os.path.join(ch2, os.path.dirname(rel)))
             os.link(os.path.join(chdir, rel), os.path.join(ch2, rel))
+            for junk in ("tmp.rf@0000000001.000.h5", "tmp.rf@9999999999.000.h5", "tmp." + os.path.basename(rel)):
+                with open(os.path.join(ch2, os.path.dirname(rel), junk), "wb") as fj:
+                    fj.write(b"\x89HDF\r\n\x1a\n" + b"\0" * 40)  # truncated HDF5 file
             try:
                 drf.recreate_properties_file(ch2)
             except Exception as e:  # noqa: BLE001
